@@ -5,5 +5,6 @@ CONSTANTS
   GenFaults = {"ok", "exception", "samepath"}
   ByeFaults = {"ok", "noreply"}
   NamesGoodbyeFailure = TRUE
+  DetachesStdout = TRUE
 INVARIANTS GenerateOnlyAfterGoodHandshake ExactlyOneGoodbye GoodbyeIsLast AllClosedAllReaped ExitCodeIffFailure FailureNamesPlugin OnlyFailingPluginsNamed WriteOnlyOnSuccess ProtocolAutomaton SentIsScriptDetermined NeverStuck
 CHECK_DEADLOCK FALSE
